@@ -139,11 +139,17 @@ func DemosAppDir() (string, bool) {
 
 // NetTimeout 返回网络超时设置
 func NetTimeout() time.Duration {
+	if d := verifNetTimeout(); d > 0 {
+		return d
+	}
 	return time.Second * 45
 }
 
 // NetHeartbeatInterval 返回网络心跳间隔
 func NetHeartbeatInterval() time.Duration {
+	if d := verifNetHeartbeat(); d > 0 {
+		return d
+	}
 	return time.Second * 30
 }
 
